@@ -834,9 +834,21 @@ func (st *c07Child) handle(req string) string {
 	}
 	M := c07Apply(s, c07Mut{f[3], fi, off, val}, st.garbage)
 	g, class, sub, typ := c07Classify(s, M)
+	// every leading packet of M that frames and decodes is sent on its own and answered before the next one goes out
+	// (for a mutant whose changed frame is still a valid request this includes that frame and what follows it)
+	var paced [][]byte
 	plen := 0
-	for _, fr := range s.frames[:g] {
-		plen += len(fr)
+	for plen+4 <= len(M) {
+		l := int(binary.BigEndian.Uint32(M[plen:]))
+		if l == 0 || l > c07MaxMsg || plen+4+l > len(M) {
+			break
+		}
+		fr := M[plen : plen+4+l]
+		if _, ek, _ := sftp.VerifDecA(fr[4], fr[5:]); ek != "ok" && ek != "unknownext" {
+			break
+		}
+		paced = append(paced, fr)
+		plen += 4 + l
 	}
 	if burst { // the whole stream at once: responses and final state may legitimately depend on scheduling
 		_, _, problems := c07Stream(srv, alloc, filepath.Join(st.base, "w"), nil, M)
@@ -845,7 +857,7 @@ func (st *c07Child) handle(req string) string {
 		}
 		return "ok"
 	}
-	resp, snap, problems := c07Stream(srv, alloc, filepath.Join(st.base, "w"), s.frames[:g], M[plen:])
+	resp, snap, problems := c07Stream(srv, alloc, filepath.Join(st.base, "w"), paced, M[plen:])
 	var fails []string
 	// 1. responses: a prefix of the reference responses to the good prefix
 	frames, rest := splitFrames(resp)
